@@ -127,8 +127,90 @@ def run(ctx) -> None:
     ctx.rule(rule_replace)
     ctx.rule(rule_writers)
     ctx.rule(rule_switch)
+    ctx.rule(rule_fingerprint)
     ctx.chk.assumptions = ["pickle's documented failure set; filelock.Timeout is a TimeoutError (OSError); FileLock gives mutual exclusion between processes",
                            "not decided: equality of cached and uncached answers (fingerprint completeness), N-process interleavings beyond lock discipline"]
+
+
+def rule_fingerprint(ctx) -> None:
+    """The quick-info fingerprint evaluated on model file systems (os.* and the hash object are modelled, the function's own code is
+    evaluated): it must change when the (mtime, size) of any devices/<name>/database.yaml or of common/database_defaults.yaml
+    changes, when a device folder is added or removed, and it must not change when nothing changed."""
+    from ..engines import ordereval as oe
+    Obj = oe.Obj
+    fn = ctx.own(DB, "DatabaseManager", "get_quick_info_hash")
+
+    def run_on(fs: dict):
+        """fs: {path: (mtime, size)} for files, {dir: None} for directories"""
+        def cv(c: ast.Call, ev):
+            f = norm(c.func)
+            if f == "os.path.join":
+                return "/".join(str(ev.ev(a)) for a in c.args)
+            if f == "os.path.exists" and len(c.args) == 1:
+                return ev.ev(c.args[0]) in fs
+            if f == "os.path.isdir" and len(c.args) == 1:
+                p_ = ev.ev(c.args[0])
+                return p_ in fs and fs[p_] is None
+            if f == "os.path.isfile" and len(c.args) == 1:
+                p_ = ev.ev(c.args[0])
+                return p_ in fs and fs[p_] is not None
+            if f in ("os.listdir", "os.scandir", "sorted") and len(c.args) == 1 and f != "sorted":
+                d = ev.ev(c.args[0])
+                names = sorted({k[len(d) + 1:].split("/")[0] for k in fs if k.startswith(d + "/")})
+                if f == "os.listdir":
+                    return tuple(names)
+                return tuple(Obj(name=n_, path=f"{d}/{n_}") for n_ in names)
+            if f == "os.stat" and len(c.args) == 1:
+                p_ = ev.ev(c.args[0])
+                if p_ not in fs:
+                    raise oe.ModelRaise(oe.Outcome("raise", "FileNotFoundError", c))
+                st_ = fs[p_] if fs[p_] is not None else (111, 4096)  # a directory: its own inode data, not the files below it
+                return Obj(st_mtime_ns=st_[0], st_size=st_[1], st_mtime=st_[0] / 1e9)
+            if f in ("os.path.getmtime", "os.path.getsize") and len(c.args) == 1:
+                p_ = ev.ev(c.args[0])
+                st_ = fs.get(p_) or (111, 4096)
+                return st_[0] if f.endswith("getmtime") else st_[1]
+            if f == "Hash" and len(c.args) + len(c.keywords) == 1:
+                return Obj(_hash=True, log=())
+            if isinstance(c.func, ast.Attribute) and c.func.attr in ("update", "update_int", "finalize"):
+                try:
+                    o = ev.ev(c.func.value)
+                except oe.Unsupported:
+                    o = None
+                if isinstance(o, Obj) and "_hash" in o.__dict__:
+                    if c.func.attr == "finalize":
+                        return ("DIGEST", o.__dict__["log"])
+                    v = ev.ev(c.args[0])
+                    o.__dict__["log"] = o.__dict__["log"] + ((c.func.attr, bytes(v) if isinstance(v, (bytes, bytearray)) else v),)
+                    return None
+            return oe.NOT_MODELLED
+        sym = ctx.fold_sym(fn, {"SPSDK_DEBUG_DB": False})
+        try:
+            out = oe.Evaluator({"paths": ("/d", None)}, sym, opaque_return=False, call_value=cv).run(A.body_of(fn.node))
+        except oe.Unsupported as ex:
+            raise AnalysisError(f"C18.fingerprint: get_quick_info_hash left the fragment: {ex}")
+        return (out.kind, out.value)
+    base = {"/d": None, "/d/common": None, "/d/common/database_defaults.yaml": (1000, 50), "/d/devices": None,
+            "/d/devices/alpha": None, "/d/devices/alpha/database.yaml": (2000, 70), "/d/devices/alpha/other.json": (1, 1),
+            "/d/devices/beta": None, "/d/devices/beta/database.yaml": (3000, 90)}
+    ref = run_on(base)
+    probs = []
+    if ref[0] != "return" or run_on(dict(base)) != ref:
+        probs.append(f"not a function of the file system state: {ref[0]}")
+    variants = {"alpha/database.yaml rewritten in place (mtime)": {"/d/devices/alpha/database.yaml": (2001, 70)},
+                "beta/database.yaml rewritten in place (size)": {"/d/devices/beta/database.yaml": (3000, 91)},
+                "common defaults rewritten": {"/d/common/database_defaults.yaml": (1001, 50)},
+                "device gamma added": {"/d/devices/gamma": None, "/d/devices/gamma/database.yaml": (4000, 10)}}
+    for what, delta in variants.items():
+        fs2 = dict(base)
+        fs2.update(delta)
+        if run_on(fs2) == ref:
+            probs.append(f"unchanged when {what}")
+    fs3 = {k: v for k, v in base.items() if not k.startswith("/d/devices/beta")}
+    if run_on(fs3) == ref:
+        probs.append("unchanged when device beta is removed")
+    ctx.chk.decide(not probs, "C18.fingerprint", fn.qual, "the cache fingerprint depends on (mtime, size) of every devices/*/database.yaml and of the common defaults and on the set of device folders (6 model file systems)",
+                   "; ".join(probs), "a rewritten database file changes the fingerprint", A.loc(DB, fn.node))
 
 
 def rule_loads(ctx) -> None:
